@@ -160,13 +160,16 @@ fn check_pair(a: &UVal, b: &UVal) -> Result<u64, String> {
     // ---- compound assignment == plain assignment of the operator expression
     for (op, sym) in [("+", "plus"), ("-", "minus"), ("*", "times"), ("/", "over")] {
         let tail = "say va\nsay va plus 1\nsay \"\" plus va\n";
-        let pa = format!("{}let va be {} vb\n{}", pre, op, tail);
-        let pb = format!("{}let va be va {} vb\n{}", pre, sym, tail);
-        let ra = run_text(&pa)?;
-        let rb = run_text(&pb)?;
-        digest ^= fnv_str(&format!("{:?}", ra));
-        if ra != rb {
-            return Err(format!("compound assignment differs from its expansion: {:?} vs {:?}\n--- compound:\n{}--- expanded:\n{}", ra, rb, pa, pb));
+        // e = one operand, and e = a list of operands (folded left like any list operand)
+        for e in ["vb", "vb, vb", "vb, 1, \"c\"", "1, vb", "null, vb, va"] {
+            let pa = format!("{}let va be {} {}\n{}", pre, op, e, tail);
+            let pb = format!("{}let va be va {} {}\n{}", pre, sym, e, tail);
+            let ra = run_text(&pa)?;
+            let rb = run_text(&pb)?;
+            digest ^= fnv_str(&format!("{:?}", ra));
+            if ra != rb {
+                return Err(format!("compound assignment differs from its expansion: {:?} vs {:?}\n--- compound:\n{}--- expanded:\n{}", ra, rb, pa, pb));
+            }
         }
     }
     // ---- the same laws on the library's value type
@@ -269,7 +272,7 @@ impl Prop for C14 {
         80
     }
     fn cases(&self, t: Tier) -> usize {
-        t.pick(400_000, 3_000_000)
+        t.pick(200_000, 3_000_000)
     }
     fn generate(&self, t: &mut Tape) -> Case {
         let a = gen_uval(t);
